@@ -226,7 +226,7 @@ theorem collToList_Fin {ie oe conv} {v : Value} {es : List Value}
     (hes : elemsOf E v = .ok es) (hm : MembersD d es ie) :
     Fin (applyStep E rec (.collToList oe conv) v) := by
   have hnd : oe.isDyn = false := not_isDyn_of_noDyn hdo
-  simp only [applyStep, hnd, hes]
+  simp only [applyStep, hnd, hdo, hes]
   split
   · exact Fin.ok _
   · refine Fin.bind (Fin.ok _) fun es0 h0 => ?_
@@ -249,7 +249,7 @@ theorem collToSet_Fin {ie oe conv} {v : Value} {es : List Value}
     (hes : elemsOf E v = .ok es) (hm : MembersD d es ie) :
     Fin (applyStep E rec (.collToSet oe conv) v) := by
   have hnd : oe.isDyn = false := not_isDyn_of_noDyn hdo
-  simp only [applyStep, hnd, hes]
+  simp only [applyStep, hnd, hdo, hes]
   refine Fin.bind (Fin.ok _) fun es0 h0 => ?_
   simp at h0; subst h0
   refine Fin.bind (members_Fin hfin hpf hwi hoi hwo hdo hm) fun es' hes' => ?_
@@ -273,7 +273,7 @@ theorem collToMap_Fin {ie oe conv} {v : Value} {es : List Value}
     (hes : elemsOf E v = .ok es) (hm : MembersD d es ie) :
     Fin (applyStep E rec (.collToMap oe conv) v) := by
   have hnd : oe.isDyn = false := not_isDyn_of_noDyn hdo
-  simp only [applyStep, hnd, hes]
+  simp only [applyStep, hnd, hdo, hes]
   refine Fin.bind (Fin.ok _) fun es0 h0 => ?_
   simp at h0; subst h0
   have hfun : (fun e => applyOpt rec conv e) = fun e => (applyOpt rec conv e).map id := by
